@@ -151,13 +151,13 @@ PROPS["C10"] = dict(
 )
 PROPS["C14"] = dict(
     level="other",
-    claim="Every leaf functor callable (52) forwards its argument pack unchanged to view::<own name>; every functional:: object (126) binds the callable/op of its own name with the operand arity of the oracle table; the 73 ufunc aliases bind the op type of the same name; get_function_t<view X> hands back functional::X. Currying, composition associativity and graph extraction are not decided.",
+    claim="Every leaf functor callable (52) forwards its argument pack unchanged to view::<own name>; every functional:: object (126) binds the callable/op of its own name with the operand arity of the oracle table; the 73 ufunc aliases bind the op type of the same name; get_function_t<view X> hands back functional::X; the order facts of the functor machinery (R-ORDER: functors of f precede those of g in f*g, a functor's result precedes the operands still curried, leaves are collected left to right, attributes are appended); and the extraction fold ties every chained sub-composition to its operand position (R-EXTRACTPOS; violated on the unchanged tree, known finding F16). Currying splits, associativity at value level and graph node ids are not decided.",
     note=E2_NOTE,
     technique=E2_TECH,
     e2=[dict(rule="R-FWD.functional")],
     rule="E2: one instance per functor callable, functor object, op alias and get_function specialisation under include/nmtools/array/functional (core machinery files excluded); distinct by qualified name",
     explanation="A functor equals the direct view call only if its callable forwards to the view of the same name with the same arity; these are structural facts.",
-    not_decided="currying splits, f*g associativity, operand identity, compute-graph node ids (value level)",
+    not_decided="currying splits, f*g associativity at value level, operand identity, compute-graph node ids",
     assumptions=["arity oracle tools/functional_arity.json reviewed by hand"],
 )
 
